@@ -81,6 +81,9 @@ F: Dict[str, Dict[str, Any]] = {
     # a base that is external to the project, reached through a module of the project
     'external-base-via-module': {'a': 'from ext36 import Ext36\n', 'c': 'import p.a\nclass C36(p.a.Ext36): pass\n', 'b': 'from .a import Ext36 as E36\nclass B36(E36): pass\n'},
     'external-base-via-pkg': {'a': 'import ext37\n', 'c': 'import p\nclass C37(p.a.ext37.Ext37): pass\n'},
+    'docupdate-via-pkg-attr': {'b': 'class Foo38:\n    "orig"\n', 'c': 'import p\np.b.Foo38.__doc__ = "patched"\n'},
+    # (a cycle through a module that REdefines the imported class is entry-order dependent in CPython itself - not generated)
+    'cycle-moved-class': {'a': 'from p.b import B40\nclass X40(B40): pass\n', 'b': 'import p.a\nclass B40: pass\n', 'c': 'from p.a import X40\n__all__ = ["X40"]\n', '__cyclic__': True},
     'cycle':        {'a': 'from .b import B17\nclass A17: pass\nclass A17b(B17): pass\n', 'b': 'from .a import A17\nclass B17(A17): pass\n', '__cyclic__': True},
     'cycle3':       {'a': 'from .b import B27\nclass A27(B27): pass\n', 'b': 'from .c import C27\nclass B27(C27): pass\n', 'c': 'from . import a\nclass C27: pass\nclass D27(a.A27): pass\n', '__cyclic__': True},
     'tc-cycle':     {'a': 'from typing import TYPE_CHECKING\nif TYPE_CHECKING:\n    from .b import B18\nclass A18: pass\n', 'b': 'from .a import A18\nclass B18(A18): pass\n', '__cyclic__': True},
@@ -94,6 +97,9 @@ SKEL = {
     'sub':  [('p', 'p', None, True), ('a', 'a', 'p', False), ('s', 's', 'p', True), ('b', 'b', 'p.s', False), ('c', 'c', 'p.s', False), ('z', 'z', 'p', False)],
     # two roots: module c lives in a second root package q
     'roots': [('p', 'p', None, True), ('a', 'a', 'p', False), ('b', 'b', 'p', False), ('q', 'q', None, True), ('c', 'c', 'q', False)],
+    # two roots AND nesting: module b lives two packages deep (p.s.b), module c in the second root: what the outer package declares must
+    # reach b even when b is first reached from the other root
+    'deeproots': [('p', 'p', None, True), ('a', 'a', 'p', False), ('s', 's', 'p', True), ('b', 'b', 'p.s', False), ('q', 'q', None, True), ('c', 'c', 'q', False)],
 }
 
 
@@ -101,7 +107,8 @@ def rewrite(src: str, home: str, skel: str) -> str:
     """Adapt a feature source written for p{a,b,c} to another skeleton."""
     if skel == 'flat' or not src:
         return src
-    loc = {'flat': {}, 'sub': {'b': 'p.s.b', 'c': 'p.s.c', 'a': 'p.a'}, 'roots': {'a': 'p.a', 'b': 'p.b', 'c': 'q.c'}}[skel]
+    loc = {'flat': {}, 'sub': {'b': 'p.s.b', 'c': 'p.s.c', 'a': 'p.a'}, 'roots': {'a': 'p.a', 'b': 'p.b', 'c': 'q.c'},
+           'deeproots': {'a': 'p.a', 'b': 'p.s.b', 'c': 'q.c'}}[skel]
     out = src
     for m in ('a', 'b', 'c'):
         full = loc[m]
@@ -111,6 +118,9 @@ def rewrite(src: str, home: str, skel: str) -> str:
         out = out.replace(f'import p.{m}\n', f'import {full}\n')
         out = out.replace(f'(p.{m}.', f'({full}.').replace(f'@p.{m}.', f'@{full}.').replace(f': p.{m}.', f': {full}.')
     out = out.replace('from . import a\n', f'from {loc["a"].rsplit(".", 1)[0]} import a\n')
+    import re as _re
+    for m in ('a', 'b', 'c'):
+        out = _re.sub(r'(?<![\w.])p\.%s(?!\w)' % m, loc[m], out)      # any remaining dotted use of the module
     return out
 
 
@@ -146,6 +156,12 @@ def import_cycle(src: Dict[str, str], skel: str) -> bool:
                 add(k, base)
                 for al in node.names:
                     add(k, f'{base}.{al.name}')
+            elif isinstance(node, _ast.Attribute):
+                # 'import p' followed by 'p.b.X' depends on p.b as much as 'import p.b' does
+                try:
+                    add(k, _ast.unparse(node))
+                except Exception:  # noqa
+                    pass
     # sub-modules implicitly depend on their packages being imported first (package __init__ runs before)
     color: Dict[str, int] = {}
 
@@ -358,6 +374,7 @@ def jobs(tier: str) -> Iterable[Tuple[str, Any]]:
     for f in NAMES:
         yield ('sub:features<=1', ('prog', [f], 'sub', 0))
         yield ('roots:features<=1', ('prog', [f], 'roots', 0))
+        yield ('deeproots:features<=1', ('prog', [f], 'deeproots', 0))
     for i in range(0, len(NAMES), 4):
         yield ('disk:features<=1', ('disk', NAMES[i:i + 4]))
     if K >= 3:
